@@ -66,16 +66,24 @@ Fixpoint set_nth {A} (i : nat) (x : A) (l : list A) {struct l} : list A :=
 
 (* the `for pk_index in pk_indexes` loop.  ncols = col_specs.len(), count =
    bound_values.element_count(), it = values_iter, offset = values_iter_offset (u16),
-   slots = pk_values.  u16 arithmetic that overflows panics (the harness is built with
-   overflow checks; a release build wraps and then reports NoPkIndexValue). *)
-Fixpoint pk_new_loop (ncols : nat) (count : N) (pkis : list pk_index) (it : list raw_value)
-    (offset : N) (slots : list (option bytes)) : result c03_error (list (option bytes)) :=
+   slots = pk_values.  [checks] = the build's overflow-checks setting: with checks (debug
+   builds, the main harness) u16 arithmetic that overflows panics; without (release builds)
+   it wraps modulo 2^16.  Index-out-of-bounds panics exist in both. *)
+Fixpoint pk_new_loop (checks : bool) (ncols : nat) (count : N) (pkis : list pk_index)
+    (it : list raw_value) (offset : N) (slots : list (option bytes))
+  : result c03_error (list (option bytes)) :=
   match pkis with
   | [] => Ok slots
   | p :: rest =>
-      if pki_index p <? offset then Err RustPanic            (* pk_index.index - offset *)
-      else
-        match iter_nth (N.to_nat (pki_index p - offset)) it with
+      (* pk_index.index - values_iter_offset : u16 *)
+      let delta :=
+        if pki_index p <? offset
+        then if checks then None else Some ((pki_index p + 65536 - offset) mod 65536)
+        else Some (pki_index p - offset) in
+      match delta with
+      | None => Err RustPanic
+      | Some d =>
+        match iter_nth (N.to_nat d) it with
         | None => Err (NoPkIndexValue (pki_index p) count)
         | Some (v, it') =>
             let stored :=
@@ -91,17 +99,21 @@ Fixpoint pk_new_loop (ncols : nat) (count : N) (pkis : list pk_index) (it : list
             match stored with
             | Err e => Err e
             | Ok slots' =>
-                if 65535 <? pki_index p + 1 then Err RustPanic              (* index + 1 : u16 *)
-                else pk_new_loop ncols count rest it' (pki_index p + 1) slots'
+                (* values_iter_offset = pk_index.index + 1 : u16 *)
+                if 65535 <? pki_index p + 1 then
+                  if checks then Err RustPanic
+                  else pk_new_loop checks ncols count rest it' ((pki_index p + 1) mod 65536) slots'
+                else pk_new_loop checks ncols count rest it' (pki_index p + 1) slots'
             end
         end
+      end
   end.
 
 (* PartitionKey::new(prepared_metadata, bound_values) for the metadata deserialized from a
    PREPARED response whose pk index list is [wire] and which has [ncols] column specs *)
-Definition pk_new (ncols : nat) (wire : list N) (values : list raw_value)
+Definition pk_new (checks : bool) (ncols : nat) (wire : list N) (values : list raw_value)
   : result c03_error (list (option bytes)) :=
-  pk_new_loop ncols (N.of_nat (length values)) (deser_pk_indexes wire) values 0
+  pk_new_loop checks ncols (N.of_nat (length values)) (deser_pk_indexes wire) values 0
               (repeat None (length wire)).
 
 (* PartitionKey::iter: pk_values.iter().flatten() *)
@@ -144,12 +156,12 @@ Definition pk_calculate_token (p : partitioner) (slots : list (option bytes))
 
 (* PreparedStatement::calculate_token_untyped: None when the statement is not token aware
    (no pk indexes) *)
-Definition ps_calculate_token (p : partitioner) (ncols : nat) (wire : list N)
+Definition ps_calculate_token (checks : bool) (p : partitioner) (ncols : nat) (wire : list N)
     (values : list raw_value) : result c03_error (option Z) :=
   match wire with
   | [] => Ok None
   | _ =>
-      match pk_new ncols wire values with
+      match pk_new checks ncols wire values with
       | Err e => Err e
       | Ok slots =>
           match pk_calculate_token p slots with
@@ -160,9 +172,10 @@ Definition ps_calculate_token (p : partitioner) (ncols : nat) (wire : list N)
   end.
 
 (* PreparedStatement::compute_partition_key (after serialization of the values) *)
-Definition ps_compute_partition_key (ncols : nat) (wire : list N) (values : list raw_value)
+Definition ps_compute_partition_key (checks : bool) (ncols : nat) (wire : list N)
+    (values : list raw_value)
   : result c03_error bytes :=
-  match pk_new ncols wire values with
+  match pk_new checks ncols wire values with
   | Err e => Err e
   | Ok slots =>
       match encoded_pk_chunks slots with
